@@ -1,6 +1,7 @@
 package main
 
 import (
+	"fmt"
 	"go/ast"
 	"go/token"
 	"go/types"
@@ -10,7 +11,7 @@ func init() {
 	register(&propDef{
 		id: "C45", title: "Linear stream pipelines compute exactly their list semantics",
 		technique: "per-message-case CFG conservation rules on the generic stage actors (flow, fused flow, sink, pull source) and dataflow-shape rules on the operator closures (Map, Filter, FlatMap, Flatten, Scan, Deduplicate)",
-		explanation: "Decides the conservation skeleton of linear stages: FLOW stage (1) in the element case every path either buffers every output of the transform, in order, or ends the stream by telling downstream a streamError carrying the transform's own error, or takes the documented Resume drop; (2) buffered outputs are emitted only as values popped from the FIFO buffer, under downstream demand, one demand unit each; (3) completion is passed downstream only on the edge 'buffer empty', and only after upstream completed; FUSED stage: a passing element is forwarded with the fused function's result, an error ends the stream with that error; SINK: the consumer function receives the received value, the terminal error is preserved, and the user-visible completion callback runs only inside a sync.Once; PULL SOURCE: pulled elements are forwarded in slice order and completion is sent only when the pull function reports exhaustion; OPERATORS: Map emits exactly fn(elem); Filter emits the element itself exactly on the predicate's true edge; FlatMap/Flatten copy position i to position i of a result of the same length; Scan threads the accumulator (acc = fn(acc, elem)) and emits it; Deduplicate suppresses only on 'has previous and equal to previous' and records every emitted element as previous. The list semantics of whole compositions, Batch/Buffer/ParallelMap/OrderedParallelMap (timers, worker pools, resequencing heap), and exactly-once of intermediate completion messages are NOT decided.",
+		explanation: "Decides the conservation skeleton of linear stages: FLOW stage (1) in the element case every path either buffers every output of the transform, in order, or ends the stream by telling downstream a streamError carrying the transform's own error, or takes the documented Resume drop; (2) buffered outputs are emitted only as values popped from the FIFO buffer, under downstream demand, one demand unit each; (3) completion is passed downstream only on the edge 'buffer empty', and only after upstream completed; FUSED stage: a passing element is forwarded with the fused function's result, an error ends the stream with that error; SINK: the consumer function receives the received value, the terminal error is preserved, and the user-visible completion callback runs only inside a sync.Once; PULL SOURCE: pulled elements are forwarded in slice order and completion is sent only when the pull function reports exhaustion; OPERATORS: Map emits exactly fn(elem); Filter emits the element itself exactly on the predicate's true edge; FlatMap/Flatten copy position i to position i of a result of the same length; Scan threads the accumulator (acc = fn(acc, elem)) and emits it; Deduplicate suppresses only on 'has previous and equal to previous' and records every emitted element as previous. The list semantics of whole compositions, Batch/Buffer/ParallelMap/OrderedParallelMap (timers, worker pools, resequencing heap), and exactly-once of intermediate completion messages are NOT decided. Added after seed C45a: every closure that is stored for later execution inside a loop of the stream package (fusion's composed functions, the fused stage's actorFn, the junction slot factories) captures only variables with one instance per iteration that are not assigned after the closure's creation, so each stage runs its own function and not the last iteration's.",
 		assumptions: []string{"per-sender FIFO delivery between stage actors (C04)", "actor turn atomicity", "user functions are deterministic"},
 		minObl:     30,
 		run:        runC45,
@@ -195,6 +196,16 @@ func runC45(c *Ctx) {
 		errEdge := f.NilCheckEdges(func(e ast.Expr) bool { return isObj(e, errObj) }, true)
 		w = f.AfterEdgesMayReach(errEdge, nil, nil, elemTell)
 		c.Check(w == nil && len(errEdge) > 0, "error⇒nothing-forwarded", "nothing is forwarded for an element whose processing failed", where, f.describe(w))
+	})
+
+	c.Rule("closures", func() {
+		// Stage descriptors carry closures (actorFn, fuseFn compositions) that run at materialisation, long after
+		// the loop that built them: a closure that captures a variable shared between iterations computes with the
+		// last stage's function instead of its own.
+		n := c.checkFrozenCaptures("frozen", "stream", nil)
+		if n < 2 {
+			c.Undecided("count", "at least two captured variables of stored closures in loops (the fusion pass)", "-", fmt.Sprintf("found %d", n))
+		}
 	})
 
 	c.Rule("sink", func() {
